@@ -175,5 +175,9 @@ class OptimizeResult(dict):
     def __setitem__(self, key: str, val: object):
         if key not in OptimizeResult._keys:
             raise ValueError("""The key is not part of OptimizeResult._keys""")
+        elif callable(val):
+            # callables (the target, the constraint function) are stored by reference:
+            # they may hold resources that cannot be deep-copied (locks, file handles)
+            dict.__setitem__(self, key, val)
         else:
             dict.__setitem__(self, key, copy.deepcopy(val))
